@@ -2,7 +2,10 @@
 
 package main
 
-import "fmt"
+import (
+	"fmt"
+	"strings"
+)
 
 // Catalogue items of C02 on shapes the AST generator does not produce: defined integer/string
 // types, methods, labels, closures' parameters, byte/rune/duration operands.  Each entry is a
@@ -79,6 +82,18 @@ func refactorSpecials(r *Rng) []refactorSpecial {
 	add("rename-method-called-from-nested-closure",
 		"type T struct{ k int }\n\nfunc (t *T) Run(n int) int {\n\tf := func() func(int) int {\n\t\treturn func(v int) int {\n\t\t\tif v <= 0 {\n\t\t\t\treturn t.k\n\t\t\t}\n\t\t\treturn t.Run(v - 1)\n\t\t}\n\t}\n\treturn f()(n)\n}\n",
 		"type T struct{ k int }\n\nfunc (self *T) Exec(n int) int {\n\tg := func() func(int) int {\n\t\treturn func(w int) int {\n\t\t\tif w <= 0 {\n\t\t\t\treturn self.k\n\t\t\t}\n\t\t\treturn self.Exec(w - 1)\n\t\t}\n\t}\n\treturn g()(n)\n}\n", map[string]string{"Run": "Exec"})
+	// the same with names as long as generated code has them (80 and 90 bytes) and with names outside ASCII:
+	// nothing about the length or the alphabet of a function's own name may reach its fingerprint
+	{
+		longA, longB := strings.Repeat("Handle", 12)+"Request", strings.Repeat("Process", 12)+"Call"
+		body := func(name, clo, p string) string {
+			return "func " + name + "(" + p + " int) int {\n\tbase := " + p + " * 3\n\t" + clo + " := func(k int) int {\n\t\tif k <= 0 {\n\t\t\treturn base\n\t\t}\n\t\treturn " + name + "(k-1) + 1\n\t}\n\treturn " + clo + "(" + p + ")\n}\n"
+		}
+		add("rename-long-named-function-with-closure", body(longA, "step", "n"), body(longB, "next", "depth"), map[string]string{longA: longB})
+		add("rename-long-named-function-to-short", body(longA, "step", "n"), body("Go", "next", "depth"), map[string]string{longA: "Go"})
+		uniA, uniB := "ÄnderungsÜbersichtGrößenÄÖÜäöüßßßß", "Übersicht"
+		add("rename-non-ascii-named-function-with-closure", body(uniA, "step", "n"), body(uniB, "next", "depth"), map[string]string{uniA: uniB})
+	}
 	// string and large-integer literals replaced (default policy abstracts them)
 	add("literals-defined-types",
 		fmt.Sprintf("type Level int\n\nfunc Tag(a Level) string {\n\tif a > %d {\n\t\treturn \"high-%d\"\n\t}\n\treturn \"low\"\n}\n", 1000+k, k),
